@@ -39,7 +39,8 @@ def c01_runs(tier, seed):
         total = sum((p + 2) ** nd for p in range(7) for nd in range(2, 6))
         runs += [RunSpec("gen", "f", "plain", nf),
                  RunSpec("gen", "ld", "plain", nf),
-                 RunSpec("gen", "Q", "nochk", n // 4, defines=("MAXP=8",)),
+                 RunSpec("gen", "Q", "nochk", n // 8, defines=("MAXP=10",)),
+                 RunSpec("gen", "d", "nochk", n // 8, defines=("MAXP=10",)),
                  RunSpec("gen", "Q", "plain", total, params={"enum": 1},
                          name="gen-enum"),
                  RunSpec("gen", "d", "plain", total, params={"enum": 1},
@@ -67,7 +68,8 @@ reg(Spec(
               "route:0", "route:1", "route:2", "route:3",
               "obs:partition-of-unity", "obs:continuity"] +
              ["order:%d" % p for p in range(7)],
-    assumptions=[DYADIC, MODEL, "orders 0..6 (0..8 in the thorough run); the "
+    assumptions=[DYADIC, MODEL, "orders 0..6 (0..10 in the thorough run; the "
+                 "examples use order 10); the "
                  "thorough tier also enumerates every multiplicity vector in "
                  "{1..p+2}^nd for nd = 2..5 distinct values and p = 0..6 "
                  "(72 044 compositions, pattern 'enumerated')"],
@@ -87,7 +89,9 @@ def c02_runs(tier, seed):
     if tier == "thorough":
         runs += [RunSpec("eval", "f", "plain", n // 2),
                  RunSpec("eval", "ld", "plain", n // 2),
-                 RunSpec("eval", "d", "nochk", n // 2)]
+                 RunSpec("eval", "d", "nochk", n // 2),
+                 RunSpec("eval", "Q", "nochk", n // 8, defines=("MAXO=10",)),
+                 RunSpec("eval", "d", "nochk", n // 4, defines=("MAXO=10",))]
     return runs
 
 
@@ -135,7 +139,9 @@ def c04_runs(tier, seed):
     runs = [RunSpec("ops", "Q", "plain", n), RunSpec("ops", "d", "plain", n)]
     if tier == "thorough":
         runs += [RunSpec("ops", "f", "plain", n // 3),
-                 RunSpec("ops", "ld", "plain", n // 3)]
+                 RunSpec("ops", "ld", "plain", n // 3),
+                 RunSpec("ops", "Q", "nochk", n // 6, defines=("MAXO=10",)),
+                 RunSpec("ops", "d", "nochk", n // 6, defines=("MAXO=10",))]
     return runs
 
 
@@ -178,14 +184,15 @@ def expr_post(res, tier, seed):
 
 
 def expr_runs(tier, seed, flavour="plain", scalars=("Q", "d"), nrandom=None,
-              cases_per_tu=None, per_tu=8):
+              cases_per_tu=None, per_tu=8, maxin=3):
     nrandom = nrandom if nrandom is not None else q(tier, 24, 400)
     cases = cases_per_tu if cases_per_tu is not None else q(tier, 3600, 36000)
     runs = []
     for sc in scalars:
         exact = sc == "Q"
         tus = XG.programs(seed, nrandom, exact, per_tu, GEN_DIR,
-                          "q" if exact else "f")
+                          ("q" if exact else "f") + ("" if maxin == 3 else
+                                                     "m%d" % maxin), maxin)
         for path, h, texts in tus:
             LAST_EXPRS.setdefault(sc, [])
             for t in texts:
@@ -193,7 +200,9 @@ def expr_runs(tier, seed, flavour="plain", scalars=("Q", "d"), nrandom=None,
                     LAST_EXPRS[sc].append(t)
             base = os.path.basename(path)[len("gen_expr_"):-len(".cpp")]
             runs.append(RunSpec("expr", sc, flavour, cases, source=path,
-                                name="expr-" + base, shards=2))
+                                name="expr-" + base, shards=2,
+                                defines=() if maxin == 3 else
+                                ("MAXIN=%d" % maxin,)))
     return runs
 
 
@@ -218,8 +227,16 @@ EXPR_RULE = ("programs: a committed catalogue of 55 operator expressions "
              "operand's grid object or an equal twin, four run-time scalars. ")
 
 
+def expr_deep(tier, seed):
+    """thorough only: operand orders 0..4 (catalogue + 40 random per scalar)"""
+    if tier != "thorough":
+        return []
+    return expr_runs(tier, seed + 1000003, nrandom=40, cases_per_tu=24000,
+                     per_tu=6, maxin=4)
+
+
 def c05_runs(tier, seed):
-    runs = expr_runs(tier, seed)
+    runs = expr_runs(tier, seed) + expr_deep(tier, seed)
     runs += [RunSpec("pool", "Q", "plain", q(tier, 160, 10000))]
     return runs
 
@@ -247,7 +264,7 @@ reg(Spec(
 
 
 def c06_runs(tier, seed):
-    return expr_runs(tier, seed)
+    return expr_runs(tier, seed) + expr_deep(tier, seed)
 
 
 reg(Spec(
@@ -278,7 +295,7 @@ reg(Spec(
 
 
 def c07_runs(tier, seed):
-    return expr_runs(tier, seed)
+    return expr_runs(tier, seed) + expr_deep(tier, seed)
 
 
 reg(Spec(
@@ -460,7 +477,8 @@ def c12_runs(tier, seed):
             RunSpec("interp", "d", "plain", n)]
     if tier == "thorough":
         runs += [RunSpec("interp", "f", "plain", n // 2),
-                 RunSpec("interp", "ld", "plain", n // 2)]
+                 RunSpec("interp", "ld", "plain", n // 2),
+                 RunSpec("interp", "Q", "nochk", n // 8, defines=("MAXORD=7",))]
     return runs
 
 
